@@ -291,7 +291,9 @@ def model_checks(ctx):
 def _validate(ctx, rec, selftest=None):
     cases = [c for c, _, _ in rec]
     meta = {c["id"]: m for c, m, _ in rec}
-    rej = ctx.trace("Trace_ZMethod", cases, selftest=selftest, chunk=800)
+    # one TLC run at a time: harness.tlc names a run's metadir by module, cfg and the millisecond it starts,
+    # so chunks started together by ctx.trace's thread pool can collide (seen once as a TLC crash)
+    rej = ctx.trace("Trace_ZMethod", cases, selftest=selftest, chunk=4000, procs=1)
     for cid, vs in rej.items():
         m = meta[cid]
         ctx.violation(vs[0][0], {"kind": "T", "points": m["points"], "dx": m["dx"], "dy": m["dy"], "dz": m["dz"],
